@@ -185,7 +185,7 @@ def shrink(inp):
 
 COMPONENTS = [
     Component(101, "managers", impl, gen, chk=102, nontrivial=nontrivial, classify=classify,
-              shrink=shrink),
+              shrink=shrink, timeout=6),      # a case takes milliseconds; a hang is a finding (C07)
 ]
 COMPONENTS[0].split = split
 
